@@ -557,6 +557,19 @@ pub fn print_program(p: &Program, style: Style) -> String {
     if p.uses_fx {
         s.push_str("let fx = import! verif.fx\n");
     }
+    if let Some(b) = &p.body {
+        let mut uses_mod = false;
+        super::gen::walk(b, &mut |e| {
+            if let Expr::Var(v) = e {
+                if v == "c04m" {
+                    uses_mod = true;
+                }
+            }
+        });
+        if uses_mod {
+            s.push_str("let c04m = import! c04mod\n");
+        }
+    }
     for t in &p.types {
         s.push_str(&format!("type {} =", t.name));
         for (c, args) in &t.ctors {
